@@ -25,6 +25,9 @@ Proof. vm_compute. reflexivity. Qed.
 Example ex_wf_scoped : wf_heap ex_heap (ns_seeds ex_heap 1) = true.
 Proof. vm_compute. reflexivity. Qed.
 
+Example ex_wf2 : wf_heap2 ex_heap = true /\ memz 0 (owned_list ex_heap) = false.
+Proof. vm_compute. split; reflexivity. Qed.
+
 Example ex_deep_runs : exists s y, run 10 ex_heap 0 RDeep = Ok (s, R y) /\ y = 9 /\ hlen (sh s) = 19.
 Proof. eexists. eexists. vm_compute. repeat split. Qed.
 
